@@ -10,7 +10,7 @@
        lbuf_saved(xb, path[0] != '\0');
 
    ec_edit is translated by tools/c2clite.d/87_quit.list (coq/TrQuit.v proves its "buffer modified" guard and leaves the rest of the
-   body, ec_edit_rest, open).  Here the two statements above are cut out of the generated term (ee_load, by position; ee_load_shape says what
+   body, ec_edit_rest, open).  Here the two statements above are cut out of the generated term (ee_load; ee_load_shape says what
    they are) and proved relative to the oracle indices X_open, X_lbuf_rd (C01_tr_lbuf_rd is the theorem about lbuf_rd), X_close,
    X_snprintf, X_ex_show, one hypothesis per call reached; ex_path / ex_lbuf / lbuf_len are translated and run. *)
 From Coq Require Import List ZArith NArith Bool Lia.
@@ -20,8 +20,13 @@ Local Open Scope Z_scope.
 
 Definition BUFS_PATH : nat := 32.   (* bufs[0].path *)
 
-Definition ee_rest : stmt := match fn_body cf_ec_edit with SSeq _ (SSeq _ (SSeq _ r)) => r | _ => SSkip end.   (* behind the guard *)
-Definition ee_from_open : stmt := match ee_rest with SSeq _ (SSeq _ (SSeq _ (SSeq _ (SSeq _ r)))) => r | _ => SSkip end.
+(* the statements of ec_edit from `fd = open(...)` on: found by their first call, not by position, so that a change of the statements in
+   front of them (the guard of C02, the buffer switching of C20) does not move them *)
+Fixpoint seq_from (p : stmt -> bool) (s : stmt) : stmt :=
+  match s with SSeq a r => if p a then s else seq_from p r | _ => SSkip end.
+Definition is_open (a : stmt) : bool :=
+  match a with SExpr (ESetLocal _ (ECall f _)) => Nat.eqb f X_open | _ => false end.
+Definition ee_from_open : stmt := seq_from is_open (fn_body cf_ec_edit).
 Definition ee_open : stmt := match ee_from_open with SSeq a _ => a | _ => SSkip end.
 Definition ee_if : stmt := match ee_from_open with SSeq _ (SSeq b _) => b | _ => SSkip end.
 Definition ee_saved : stmt := match ee_from_open with SSeq _ (SSeq _ (SSeq c _)) => c | _ => SSkip end.
